@@ -201,6 +201,9 @@ func (f t2Fault) String() string {
 	if f.kind == t2None {
 		return "none"
 	}
+	if f.kind == t2PopDelay && f.idx > 0 {
+		return fmt.Sprintf("%s(%ds)", t2FaultName[f.kind], f.idx)
+	}
 	if f.kind == t2DeadOnUse || f.kind == t2PopDelay {
 		return t2FaultName[f.kind]
 	}
@@ -372,8 +375,12 @@ func (tc *t2Collector) Pop() *WebRTCPeer {
 		f = tc.faults[i]
 	}
 	if f.kind == t2PopDelay {
+		d := 2 * time.Second
+		if f.idx > 0 {
+			d = time.Duration(f.idx) * time.Second
+		}
 		select {
-		case <-time.After(2 * time.Second):
+		case <-time.After(d):
 		case <-tc.melt:
 			return nil
 		}
@@ -621,6 +628,9 @@ func TestVerifEnumC01T2(t *testing.T) {
 	for _, k := range []int{1, 10, 40} {
 		scen = append(scen, scenario{[]t2Fault{{t2Blackhole, false, k}}, 0, 200000, true}, scenario{[]t2Fault{{t2Blackhole, true, k}}, 0, 200000, true})
 	}
+	// a bulk transfer whose carrier dies while about a megabyte is outstanding and whose replacement comes
+	// five seconds later: KCP's retransmissions meet full send queues in the meantime
+	scen = append(scen, scenario{[]t2Fault{{t2CutAbrupt, true, 600}, {kind: t2PopDelay, idx: 5}}, 8 << 20, 8 << 20, false}, scenario{[]t2Fault{{t2CutAbrupt, false, 600}, {kind: t2PopDelay, idx: 5}}, 8 << 20, 8 << 20, false})
 	scen = append(scen, scenario{[]t2Fault{{}}, 0, 200000, true}, scenario{[]t2Fault{{t2Blackhole, false, 3}}, 300000, 200000, false}, scenario{[]t2Fault{{t2Blackhole, true, 10}}, 300000, 200000, false})
 	pairs := []t2Fault{{t2CutClean, true, 3}, {t2CutAbrupt, false, 3}, {t2CutHalf, true, 3}, {kind: t2DeadOnUse}, {t2CutHalf, false, 1}}
 	for _, a := range pairs {
